@@ -187,6 +187,7 @@ class Event:
     where: str
     data: object = None
     func: str = ""
+    frame: int = 0  # id of the innermost function activation that produced the event
 
 
 class Choices:
@@ -240,6 +241,8 @@ class Machine:
         self.hooks = {}
         self.case_vars: dict[str, bool] = {}
         self.trace_calls: list[str] = []
+        self.frame_ids: list[int] = []
+        self.frame_counter = 0
 
     # ------------------------------------------------------------ helpers
     def fresh(self, prefix="v") -> str:
@@ -250,7 +253,7 @@ class Machine:
         where = ""
         if fi is not None and node is not None:
             where = f"{fi.module.relpath}:{getattr(node, 'lineno', 0)}"
-        self.events.append(Event(kind, detail, where, data, fi.qualname if fi is not None else ""))
+        self.events.append(Event(kind, detail, where, data, fi.qualname if fi is not None else "", self.frame_ids[-1] if self.frame_ids else 0))
 
     def new_obj(self, name: str, ci: ClassInfo | None, slots: dict | None = None):
         self.heap[name] = dict(slots or {})
@@ -377,6 +380,8 @@ class Machine:
             env[x.arg] = kwargs.get(x.arg, self.ev(d, {}, fi) if d is not None else NONE)
         env["__class_cell__"] = fi.cls
         self.trace_calls.append(fi.qualname)
+        self.frame_counter += 1
+        self.frame_ids.append(self.frame_counter)
         try:
             self.block(fi.body(), env, fi)
             r = NONE
@@ -384,6 +389,7 @@ class Machine:
             r = ret.value
         finally:
             self.depth -= 1
+            self.frame_ids.pop()
         return r
 
     # ------------------------------------------------------------ statements
@@ -483,6 +489,17 @@ class Machine:
         if isinstance(it, list):
             seq = it
         elif isinstance(it, _Range):
+            # a loop whose body only rebinds local names by call-free arithmetic has no effect on
+            # the heap: its trip count is irrelevant to every rule, so it is not branched on
+            pure = all(
+                isinstance(x, (ast.Assign, ast.AugAssign)) and all(isinstance(t, ast.Name) for t in (x.targets if isinstance(x, ast.Assign) else [x.target]))
+                and not any(isinstance(c, (ast.Call, ast.Attribute)) for c in ast.walk(x.value))
+                for x in st.body
+            )
+            if pure:
+                self.store(st.target, Opaque("i"), env, fi, st)
+                self.block(st.body, env, fi)
+                return
             # loop with an unknown trip count: choose 0..LOOP_BOUND iterations
             n = self.ch.choose(self.LOOP_BOUND + 1, f"trips@{st.lineno}")
             seq = [Opaque("i")] * n
